@@ -161,18 +161,16 @@ Bucket_grow(Bucket *self, int newsize, int noval)
             goto Overflow;
         UNLESS (keys = BTree_Realloc(self->keys, sizeof(KEY_TYPE) * newsize))
             return -1;
+        /* The old block is gone now, whatever happens next. */
+        self->keys = keys;
 
         UNLESS (noval)
         {
             values = BTree_Realloc(self->values, sizeof(VALUE_TYPE) * newsize);
             if (values == NULL)
-            {
-                free(keys);
                 return -1;
-            }
             self->values = values;
         }
-        self->keys = keys;
     }
     else
     {
@@ -1317,10 +1315,11 @@ _bucket_setstate(Bucket *self, PyObject *state)
         keys = BTree_Realloc(self->keys, sizeof(KEY_TYPE)*len);
         if (keys == NULL)
             return -1;
+        /* The old block is gone now, whatever happens next. */
+        self->keys = keys;
         values = BTree_Realloc(self->values, sizeof(VALUE_TYPE)*len);
         if (values == NULL)
             return -1;
-        self->keys = keys;
         self->values = values;
         self->size = len;
     }
